@@ -15,8 +15,8 @@ import time
 VERIF = os.path.dirname(os.path.dirname(os.path.abspath(__file__)))
 HARNESS = os.path.join(VERIF, "harness")
 BUILD = os.path.join(VERIF, "build")
-EVIDENCE = os.path.join(VERIF, "evidence")
-REPLAY = os.path.join(VERIF, "replay")
+EVIDENCE = os.environ.get("VERIF_EVIDENCE_DIR") or os.path.join(VERIF, "evidence")
+REPLAY = os.environ.get("VERIF_REPLAY_DIR") or os.path.join(VERIF, "replay")
 KNOWN = os.path.join(VERIF, "known_findings.json")
 CXX = os.environ.get("VERIF_CXX", "g++")
 
@@ -390,6 +390,8 @@ class Ctx:
     def run_shards(self, shards, timeout=900, on_compile_fail=None):
         """shards: list of dict(name, src, flavour, defines=(), args=(), env=None, cuda_shim=False,
         is_text=False).  Compiles all, runs all, re-runs hangs once.  Returns list of Run/None."""
+        if not self.thorough:
+            timeout = min(timeout, 480)   # quick tier: a hang must not take the better part of an hour to report
         if self.replay_mode and self.replay_mode.get("shard"):
             shards = [s for s in shards if s["name"] == self.replay_mode["shard"]] or shards
         builds = self.compile_many([dict(name=s["name"], src=s["src"], flavour=s["flavour"],
